@@ -4,6 +4,6 @@ PARTIAL = ['cascade over service chains (depth 2-3): by induction from C03 + thi
 
 
 def run(tier, seed, replay):
-    return runner.run_trace_property("C04", sysprops.families("C04", ('srv',)), tier, seed, replay,
+    return runner.run_trace_property("C04", sysprops.families("C04", ('srv', 'chain')), tier, seed, replay,
                                      assumptions=sysprops.COMMON_ASSUMPTIONS + ['ids are not re-used after cancellation/expiry while a stale response may be buffered (outside the quantifier)'], partial=PARTIAL,
                                      signatures=sysprops.SIGNATURES)
